@@ -13,6 +13,8 @@ IDS = ['a', 'b', 'c', 'x', 'y', 'z']
 MAC = ['F', 'G', 'H', 'OBJ', 'P', 'Q', 'V']
 PLAIN = ['1', '2', '+', '-', '*', '"s"', 'a', 'b', 'x', '.5', 'e', '<', '>>', '=', '( a )', '( 1 , b )', "'c'", '3u', '->', '&&', '0x1f', 'L"w"', '...', '[', ']']
 PASTE_ARGS = ['r', 's1', 'x', 'k9', 'OBJ', 'F', '_', 'G']
+# literals with escapes, and a backslash outside any literal: 6.10.3.2p2 escapes \\ and " only inside literals
+ESC = ['"a\\n"', "'\\\\'", '"\\\\"', "'\\''", '"q\\"r"', "'\\n'", 'L"w\\t"', 'u8"\\\\"', '\\n', '\\ x']
 
 
 class M:
@@ -140,7 +142,11 @@ class Gen:
 
     def plain_arg(self, extra):
         ch = self.ch
-        return ' '.join(ch.choice(PLAIN[:8] + IDS + list(self.macs) + list(extra)) for _ in range(ch.int(1, 3)))
+        toks = [ch.choice(PLAIN[:8] + IDS + list(self.macs) + list(extra)) for _ in range(ch.int(1, 3))]
+        if ch.int(0, 7) == 0:
+            toks.insert(ch.int(0, len(toks)), ch.choice(ESC))
+            self.feat.add('escape-in-arg')
+        return ' '.join(toks)
 
     def arg(self, d, m, p, extra=()):
         ch = self.ch
@@ -214,6 +220,15 @@ class Gen:
             self.lines.append('#define OBJ 1'); self.macs['OBJ'] = M('OBJ', 'o')
         for k in range(ch.int(1, 4)):
             self.lines.append('[ %s ] %s %s' % (self.inv(2), ch.choice(PLAIN), ch.choice(sorted(self.macs) + IDS)))
+            if ch.int(0, 11) == 0:
+                # an object-like macro with an empty replacement list whose directive is followed by a line starting with '('
+                name = ch.choice(MAC)
+                if name in self.macs:
+                    self.lines.append('#undef %s' % name)
+                self.lines.append('#define %s' % name)
+                self.macs[name] = M(name, 'o')
+                self.lines.append('( %s ) [ %s ] %s' % (ch.choice(IDS), name, ch.choice(PLAIN)))
+                self.feat.add('empty-objlike-then-paren-line')
             if ch.int(0, 5) == 0:
                 # history: redefine / undef between invocations
                 if ch.bool() and self.macs:
@@ -230,7 +245,7 @@ class C09:
     level = 'exploration'
     rule = ('cases = a definition set of 1-6 macros over a 7-name pool (object-like and function-like, 0-3 parameters, `...`/named variadics, # and ## placed validly by construction, '
             '__VA_OPT__, `, ## __VA_ARGS__`, redefinition and #undef between invocations) plus 1-4 invocation lines (nested calls, parenthesised commas, empty arguments, macro names as '
-            'arguments, invocations spanning lines, function-like names without parentheses). Oracle: pp-token sequence of chibicc -E == gcc -E -P == clang -E -P (all lexed by the same '
+            'arguments, string and character literals with escapes and backslashes outside literals as arguments, invocations spanning lines, function-like names without parentheses, empty object-like definitions followed by a line that starts with a parenthesis). Oracle: pp-token sequence of chibicc -E == gcc -E -P == clang -E -P (all lexed by the same '
             'lexer); preprocessing must finish within 10 s (confirmed 3x). non-trivial = nested expansion, # or ## with an empty or multi-token operand, recursive reference, '
             'variadic form or multi-line invocation; distinct by program text.')
     assumptions = ['gcc -E -P and clang -E -P (gnu11) agree on the token sequence; inputs either reference rejects are discarded (counted)',
